@@ -349,6 +349,23 @@ func (s *Sim) chanRecvReady(ch interface{}) bool {
 	return closed
 }
 
+// caseReady: readiness of one select case (receive: the channel itself; send: SendCase).
+//
+//go:norace
+func (s *Sim) caseReady(c interface{}) bool {
+	if sc, ok := c.(SendCase); ok {
+		id, v := chanID(sc.Ch)
+		if id == 0 {
+			return false
+		}
+		if _, closed := s.closed[id]; closed {
+			return true // the real send panics, as it should
+		}
+		return v.Cap() > 0 && v.Len() < v.Cap()
+	}
+	return s.chanRecvReady(c)
+}
+
 //go:norace
 func (s *Sim) grantable(t *Task) bool {
 	r := &t.req
@@ -379,7 +396,7 @@ func (s *Sim) grantable(t *Task) bool {
 			return true
 		}
 		for _, c := range r.chans {
-			if s.chanRecvReady(c) {
+			if s.caseReady(c) {
 				return true
 			}
 		}
@@ -417,7 +434,7 @@ func (s *Sim) grant(t *Task) string {
 	case opSelect:
 		var ready []int
 		for i, c := range r.chans {
-			if s.chanRecvReady(c) {
+			if s.caseReady(c) {
 				ready = append(ready, i)
 			}
 		}
